@@ -240,6 +240,10 @@ class Gen:
                         iadj[c_] = {s: (None if r.random() < 0.3 else
                                         ({"mul": self.rate(allow_time=False)} if r.random() < 0.7
                                          else {"ovr": self.rate(allow_time=False)})) for s in strata}
+                        if want.get("bare_adjs"):
+                            for s in strata:
+                                if iadj[c_][s] is not None and r.random() < 0.2:
+                                    iadj[c_][s] = {"mul": "0"}       # a stratum that is not infectious at all
                         meta["iadj"] += 1
             o["iadj"] = iadj
             # mixing
@@ -267,6 +271,21 @@ class Gen:
                 ops.append(o2)
                 flow_names.append(o2["name"])
                 meta["flows"].append("post-strat")
+            if want.get("post_birth") and not has_birth and len(strata) >= 2 and r.random() < want["post_birth"]:
+                # a birth flow added to the stratified model: its destination matches several compartments
+                has_birth = True
+                bk = r.choice(want.get("post_birth_kinds", ["replacement_birth", "crude_birth"]))
+                o3 = {"op": "flow", "kind": bk, "name": "pbirth", "param": frac(r), "dst": r.choice(scomps)}
+                if r.random() < 0.4:
+                    o3["df"] = {name: r.choice(strata)}
+                ops.append(o3)
+                flow_names.append("pbirth")
+                meta["flows"].append("post-strat " + bk)
+            if want.get("post_exit") and len(strata) >= 2 and r.random() < want["post_exit"]:
+                ops.append({"op": "flow", "kind": "death", "name": "pdeath%d" % k, "param": frac(r), "src": r.choice(scomps),
+                            "sf": {name: r.choice(strata)}})
+                flow_names.append("pdeath%d" % k)
+                meta["flows"].append("post-strat filtered death")
             if want.get("post_import") and len(strata) >= 2 and r.random() < want["post_import"]:
                 d = r.choice(scomps)
                 ops.append({"op": "flow", "kind": "importation", "name": "pimp%d" % k, "param": frac(r, 1), "dst": d,
@@ -333,6 +352,16 @@ class Gen:
                     meta["flows"].append("early flow requests")
             ops += ops_r
             meta["reqs"] = [x["req"]["type"] for x in ops_r if x["op"] == "req"]
+        if want.get("bare_adjs"):
+            # adjustments written as bare numbers (shorthand for Multiply), zero included
+            def bare(a_):
+                if a_ is not None and "mul" in a_ and isinstance(a_["mul"], str) and a_["mul"] != "t" and r.random() < want["bare_adjs"]:
+                    return {"num": a_["mul"]}
+                return a_
+            for o_ in ops:
+                if o_["op"] == "strat":
+                    o_["fadj"] = [[fn_, {s_: bare(a_) for s_, a_ in adjs_.items()}, sf_, df_] for fn_, adjs_, sf_, df_ in o_.get("fadj", [])]
+                    o_["iadj"] = {c_: {s_: bare(a_) for s_, a_ in adjs_.items()} for c_, adjs_ in (o_.get("iadj") or {}).items()}
         prog = {"times": [t0, t1, h], "comps": comps, "inf": inf, "ops": ops, "obs": [], "meta": meta,
                 "nonlinear": bool(kinds_nonlin or allow_state)}
         return prog
